@@ -341,6 +341,23 @@ func runHistory(sc *Scenario, oc *oracleCache, keepLog bool, compareNR bool) *Ru
 			}
 		}
 	}
+	// a sample of histories also asks a real fresh process (it knows nothing of this process' hidden state)
+	if len(rep.Violations) == 0 && rep.HarnessErr == "" && sc.Property == "C04" && sc.Seed%16 == 3 && len(ops) > 0 {
+		last := ops[len(ops)-1]
+		if want := oc.get(&last, sc.LL, "fresh"); want.Panic == "" && last.Fault == nil {
+			fouts, err := freshOutcomes([]Op{last}, sc.LL)
+			if err != nil {
+				rep.HarnessErr = err.Error()
+			} else {
+				rep.fault("fresh-process-repetition", 1)
+				if fouts[0].Key() != want.Key() {
+					rep.Violations = append(rep.Violations, Violation{Property: sc.Property, Class: "differs-from-fresh-process", OpUID: last.UID, OpKind: last.Kind,
+						Site: mismatchSite(fouts[0], want), Expected: fouts[0].Key(), Got: want.Key(),
+						Detail: fmt.Sprintf("operation (%s) executed in this process with fresh objects differs from the same operation in a fresh process that did nothing else", last.brief())})
+				}
+			}
+		}
+	}
 	rep.probe("double-put", int(sim.Stats.DoublePuts))
 	rep.probe("dual-owner", int(sim.Stats.DualOwner))
 	rep.NonTrivial = sim.Stats.ForeignRecycles > 0
